@@ -149,7 +149,8 @@ def unchanged(before, after, kind):
 # --------------------------------------------------------------------- arrays
 def arrays_of(o, kind):
     if kind in ("pauli", "mono"):
-        return [o.g]
+        # the phase is a plain int in pyclifford but can be a 0-d tensor view in torchclifford
+        return [o.g] + ([o.p] if hasattr(o.p, "shape") else [])
     if kind in ("list", "map", "state"):
         return [o.gs, o.ps]
     if kind == "poly":
